@@ -24,4 +24,92 @@ theorem stop_window_order_matters :
     (∃ evs, (∃ pre, evs = pre ++ script) ∧ ∃ i ∈ (runLate {} evs).handed, i ∉ (runLate {} evs).file) :=
   ⟨C14.reversed_order_loses, C14.late_clear_loses⟩
 
+/-! ### The thread-based MQTT gateway: commands still queued at the stop -/
+
+theorem runMqtt_append (s : St) (a b : List Ev) : runMqtt s (a ++ b) = runMqtt (runMqtt s a) b := by
+  induction a generalizing s with
+  | nil => rfl
+  | cons e es ih => exact ih _
+
+/-- once the stop event is set the poll loop runs nothing: queued jobs change neither the network, nor
+    the file, nor what has been published -/
+theorem mqtt_backlog_not_run (evs : List Ev) (hp : OnlyProc evs) (s : St) (hc : s.connected = false) :
+    runMqtt s evs = s := by
+  induction evs with
+  | nil => rfl
+  | cons e evs ih =>
+    obtain ⟨c, rfl⟩ := hp e (by simp)
+    have : stepMqtt s (.proc c) = s := by simp [stepMqtt, hc]
+    show runMqtt (stepMqtt s (.proc c)) evs = s
+    rw [this]
+    exact ih (fun e he => hp e (by simp [he]))
+
+theorem inv_stepMqtt (s : St) (e : Ev) (h : C14.Inv s) : C14.Inv (stepMqtt s e) := by
+  cases e with
+  | proc c =>
+    by_cases hc : s.connected = true
+    · have : stepMqtt s (.proc c) = step s (.proc c) := by simp [stepMqtt, step, hc]
+      rw [this]; exact C14.inv_step s _ h
+    · have : stepMqtt s (.proc c) = s := by simp [stepMqtt, hc]
+      rw [this]; exact h
+  | disconnect => exact C14.inv_step s .disconnect h
+  | saveStart => exact C14.inv_step s .saveStart h
+  | saveEnd => exact C14.inv_step s .saveEnd h
+
+theorem inv_runMqtt (evs : List Ev) (s : St) (h : C14.Inv s) : C14.Inv (runMqtt s evs) := by
+  induction evs generalizing s with
+  | nil => exact h
+  | cons e evs ih => exact ih _ (inv_stepMqtt s e h)
+
+/-- **MQTT, thread-based: every id published is in the file stop() leaves.**  Anything may have
+    happened before (`pre`); then stop() sets the stop event, and whatever is still queued — before the
+    final save (`mid`), while it writes (`w`), after it (`post`) — is not run.  If no earlier save is
+    still writing when the final one starts, every id that was published is in the file. -/
+theorem mqtt_stop_window (pre mid w post : List Ev) (hmid : OnlyProc mid) (hw : OnlyProc w) (hpost : OnlyProc post)
+    (hidle : (runMqtt {} (pre ++ [.disconnect])).snap = none) :
+    let fin := runMqtt {} (pre ++ .disconnect :: mid ++ .saveStart :: w ++ .saveEnd :: post)
+    ∀ i ∈ fin.handed, i ∈ fin.file := by
+  intro fin
+  have hI := inv_runMqtt (pre ++ [.disconnect]) {} C14.inv_init
+  have hoff : (runMqtt {} (pre ++ [.disconnect])).connected = false := by
+    rw [runMqtt_append]; simp [runMqtt, stepMqtt, step]
+  have e1 : fin = runMqtt (stepMqtt (runMqtt (stepMqtt (runMqtt (runMqtt {} (pre ++ [.disconnect])) mid) .saveStart) w) .saveEnd) post := by
+    simp only [fin, runMqtt_append, runMqtt, List.append_assoc, List.cons_append, List.nil_append]
+  generalize runMqtt {} (pre ++ [.disconnect]) = s1 at hI hoff hidle e1
+  rw [mqtt_backlog_not_run mid hmid s1 hoff] at e1
+  by_cases hd : s1.dirty = true
+  · have hs2 : stepMqtt s1 .saveStart = { s1 with dirty := false, snap := some s1.known } := by
+      simp [stepMqtt, step, hidle, hd]
+    rw [hs2, mqtt_backlog_not_run w hw _ (by simpa using hoff)] at e1
+    have hs3 : stepMqtt { s1 with dirty := false, snap := some s1.known } .saveEnd
+        = { s1 with dirty := false, snap := none, file := s1.known } := by simp [stepMqtt, step]
+    rw [hs3, mqtt_backlog_not_run post hpost _ (by simpa using hoff)] at e1
+    intro i hi
+    rw [e1] at hi ⊢
+    exact hI.handed i hi
+  · have hd' : s1.dirty = false := by simpa using hd
+    have hs2 : stepMqtt s1 .saveStart = s1 := by simp [stepMqtt, step, hidle, hd']
+    rw [hs2, mqtt_backlog_not_run w hw s1 hoff] at e1
+    have hs3 : stepMqtt s1 .saveEnd = s1 := by simp [stepMqtt, step, hidle]
+    rw [hs3, mqtt_backlog_not_run post hpost s1 hoff] at e1
+    intro i hi
+    rw [e1] at hi ⊢
+    have := hI.clean hd' i (hI.handed i hi)
+    simpa [hidle] using this
+
+/-- the premises are met by a busy history: two ids handed out, a periodic save with a third handed out
+    while it writes, four more requests queued when stop() is called -/
+example :
+    let pre := [Ev.proc 1, .proc 2, .saveStart, .proc 3, .saveEnd]
+    (runMqtt {} (pre ++ [.disconnect])).snap = none ∧
+    (runMqtt {} (pre ++ .disconnect :: [Ev.proc 4] ++ .saveStart :: [Ev.proc 5, .proc 6] ++ .saveEnd :: [Ev.proc 7])).handed = [3, 2, 1] ∧
+    (runMqtt {} (pre ++ .disconnect :: [Ev.proc 4] ++ .saveStart :: [Ev.proc 5, .proc 6] ++ .saveEnd :: [Ev.proc 7])).file = [3, 2, 1] := by
+  decide
+
+/-- a poll loop that drains its queue before it looks at the stop event publishes an id the file does
+    not hold: stop()'s own actions, then the one queued request -/
+theorem mqtt_drain_after_stop_loses :
+    ∃ i ∈ (runMqttDrain {} (script ++ [.proc 1])).handed, i ∉ (runMqttDrain {} (script ++ [.proc 1])).file :=
+  ⟨1, by decide, by decide⟩
+
 end MySensors.C06
